@@ -82,5 +82,6 @@ func VH_C06_eager() {
 	<-done
 	v.Assert(sendErr == nil, "Send returns success after the FIN handshake")
 	v.Assert(len(stats) == len(view.entries), "one STAT per entry of the view")
+	v.Assert(!snd.overlap, "the sender never has two SendMsg (or two RecvMsg) calls in flight on the stream (under this schedule)")
 	v.Cover("fin")
 }
